@@ -155,6 +155,7 @@ BLOCKS: list[tuple[str, str]] = [
     ("autolink-email", "qaa <qab@example.com> qac <http://u/qad>\n"),
     ("strike-variants", "qaa ~qab~ ~~qac qad~~ qae~ ~qaf\n"),
     ("table-pipes", "| `qaa\\|qab` | qac \\| qad |\n|---|---|\n| \\\\ | qae |\n"),
+    ("table-backslash-pipe", "| `qaa" + chr(92) * 2 + "|qab` | qac |" + chr(10) + "|---|---|" + chr(10) + "| qad" + chr(92) * 3 + "| | qae |" + chr(10)),
     ("quote-heading", "> ## qaa qab\n>\n> qac qad qae\n"),
     ("quote-heading-last", "> qaa qab\n>\n> ## qac\n\nqad qae\n"),
     ("quote-heading-only", "> # qaa\n"),
